@@ -903,6 +903,39 @@ fn gen(args: &Args, emit: &mut dyn FnMut(String), st: &mut Stats) {
             }
             _ => {}
         }
+        let mut narrow = false;
+        if i % 5 == 1 {
+            // narrow ranges (1..=64 representable numbers wide) at tiny magnitudes and around powers of two:
+            // here `start*(1-u) + end*u`-style reformulations round BELOW start (seeded mutant C14_m3)
+            let mag = match rng.below(5) {
+                0 => f64::MIN_POSITIVE * (1.0 + 7.0 * ((rng.next_u64() >> 11) as f64 / (1u64 << 53) as f64)),
+                1 => f64::from_bits(1 + rng.below((1u64 << 52) - 1)), // subnormal
+                2 => {
+                    // a power of two, a few representable numbers below/at/above it
+                    let p = (2.0f64).powi(rng.range_i64(-1021, 1022) as i32);
+                    let below = f64::from_bits(p.to_bits() - rng.below(70));
+                    let above = next_up(p, rng.below(4));
+                    *rng.pick(&[p, below, above])
+                }
+                3 => f64::from_bits((rng.below(64) << 52) | (rng.next_u64() & ((1 << 52) - 1))), // exponent field < 64
+                _ => f64::from_bits(((1 + rng.below(2045)) << 52) | (rng.next_u64() & ((1 << 52) - 1))), // any normal
+            };
+            let w = 1 + rng.below(64);
+            if rng.chance(1, 2) {
+                s = mag;
+                e = next_up(mag, w);
+            } else {
+                e = -mag;
+                s = -next_up(mag, w);
+            }
+            if e.is_finite() && s < e {
+                narrow = true;
+                st.bump("float_narrow_1_64_ulps");
+                if mag < 8.0 * f64::MIN_POSITIVE {
+                    st.bump("float_narrow_tiny_magnitude");
+                }
+            }
+        }
         if !(s < e) && !rng.chance(1, 12) {
             std::mem::swap(&mut s, &mut e);
         }
@@ -910,7 +943,12 @@ fn gen(args: &Args, emit: &mut dyn FnMut(String), st: &mut Stats) {
             s = 0.0;
             e = 1.0;
         }
-        let raws = float_raws(&mut rng);
+        let mut raws = float_raws(&mut rng);
+        if narrow {
+            for _ in 0..24 {
+                raws.push(rng.next_u64());
+            }
+        }
         st.bump("float_lines");
         st.add("float_draws", raws.len() as u64);
         if !(s < e) {
